@@ -235,13 +235,24 @@ fn sampled(rng: &mut Rng) -> Scenario {
             }
             if !matches!(f.trigger, Trigger::At(_)) {
                 // persistent / burst finite glitches: bounded magnitude (see expand_base)
-                f.mag = f.mag.signum() * f.mag.abs().min(20.0).max(1.5);
+                f.mag = f.mag.signum() * f.mag.abs().min(8.0).max(1.5);
             }
             sc.faults.push(f);
         }
     }
     consistent_jacobian(&mut sc);
     sc
+}
+
+/// A run that exceeds the watchdog is re-executed once with 8x the budget: an infinite loop never
+/// finishes at any budget, a merely long run (e.g. a persistent finite glitch that makes the problem
+/// expensive) does. Only the former is a hang.
+fn finishes_with_larger_budget(sc: &Scenario) -> bool {
+    let verdict = with_watchdog_scale(8, || match sc.entry {
+        Entry::High => run_high(sc, false).verdict,
+        Entry::Low => run_low(sc, false).verdict,
+    });
+    !matches!(verdict, Verdict::Hang { .. })
 }
 
 fn check_times_finite(t: &[f64]) -> bool {
@@ -308,11 +319,17 @@ impl Prop for C04 {
                 }
                 match &o.verdict {
                     Verdict::Panic(msg) => v.push(viol(P, "panic", format!("solve_ivp panicked: {msg}"))),
-                    Verdict::Hang { ticks, site } => v.push(viol(
-                        P,
-                        "hang",
-                        format!("solve_ivp did not return within {ticks} ticks (last tick site {site}, {} S1 crossings)", o.st.ode_calls),
-                    )),
+                    Verdict::Hang { ticks, site } => {
+                        if finishes_with_larger_budget(sc) {
+                            cov.bump("slow_but_terminating");
+                        } else {
+                            v.push(viol(
+                                P,
+                                "hang",
+                                format!("solve_ivp did not return within {} ticks (8x the watchdog of {ticks}; last tick site {site}, {} S1 crossings)", 8 * (ticks - 1), o.st.ode_calls),
+                            ))
+                        }
+                    }
                     Verdict::Error(_) => cov.bump("outcome.err"),
                     Verdict::Returned => {
                         let s = o.sol.as_ref().unwrap();
@@ -384,11 +401,17 @@ impl Prop for C04 {
                 }
                 match &o.verdict {
                     Verdict::Panic(msg) => v.push(viol(P, "panic", format!("solver panicked: {msg}"))),
-                    Verdict::Hang { ticks, site } => v.push(viol(
-                        P,
-                        "hang",
-                        format!("solver did not return within {ticks} ticks (last tick site {site}, {} S1 crossings)", o.st.ode_calls),
-                    )),
+                    Verdict::Hang { ticks, site } => {
+                        if finishes_with_larger_budget(sc) {
+                            cov.bump("slow_but_terminating");
+                        } else {
+                            v.push(viol(
+                                P,
+                                "hang",
+                                format!("solver did not return within {} ticks (8x the watchdog of {ticks}; last tick site {site}, {} S1 crossings)", 8 * (ticks - 1), o.st.ode_calls),
+                            ))
+                        }
+                    }
                     Verdict::Error(_) => cov.bump("outcome.err"),
                     Verdict::Returned => {
                         let r = o.res.as_ref().unwrap();
